@@ -40,7 +40,7 @@ Matrix<4,4, double> epsic::sample::get_covariance (mode* s, unsigned sample_size
     covariance matrix of the sample mean
   */
     
-  result /= sample_size * sample_size;
+  result /= double(sample_size) * sample_size;
   return result;
 }
 
@@ -63,6 +63,6 @@ Matrix<4,4, double> epsic::sample::get_crosscovariance (mode* s, unsigned at_lag
     cross covariance matrix of the sample mean
   */
     
-  result /= sample_size * sample_size;
+  result /= double(sample_size) * sample_size;
   return result;
 }
